@@ -8,6 +8,7 @@ for P in $PROPS; do
   S=$(date +%s)
   timeout 4000 ./vcheck run $P --tier $TIER > /tmp/ra_${TIER}_$P.log 2>&1; RC=$?
   E=$(date +%s)
+  if [ "$TIER" = "thorough" ]; then mkdir -p evidence_thorough; cp evidence/$P.json evidence_thorough/$P.json 2>/dev/null; fi
   echo "$P rc=$RC wall=$((E-S))s $(grep -v '^\[' /tmp/ra_${TIER}_$P.log | head -1 | cut -c1-160)" >> /tmp/runall_$TIER.txt
 done
 echo DONE >> /tmp/runall_$TIER.txt
